@@ -146,7 +146,8 @@ H_ETransfer(s, r, l) ==
        + Chk("C11_ContinuationId", first \/ f.did = -1 \/ f.did = y.curDid, l, "")
        + Chk("C08_SenderRole", y.eutSender, l, "")
        + Chk("C08_WithinCredit", ~first \/ (y.limit >= 0 /\ y.dcS < y.limit), l, "")
-       + Chk("C01_PayloadContinuity", r.pl.ok, l, ""))
+       + Chk("C01_PayloadContinuity", r.pl.ok, l, "")
+       + Chk("C07_Fifo", r.pl.ok, l, ""))
 
 H_EFlow(s, r, l) ==
   LET f == r.f i == SessByE(s, r.ch) IN
@@ -302,7 +303,13 @@ H_Quiesce(s, r, l) ==
       ls2 == [k \in DOMAIN s.ls |-> IF up /\ Stuck(s, k) \in {"window", "credit"} THEN [s.ls[k] EXCEPT !.blockedBy = Stuck(s, k)] ELSE s.ls[k]]
       fStuck == IF stuck = {} THEN 0 ELSE
                 LET k == CHOOSE k \in stuck : TRUE IN
-                Fail(IF s.ls[k].blockedBy = "window" THEN "C07_Drain" ELSE "C08_Wake", l, IF Stuck(s, k) = "stuck" THEN "dev_ok" ELSE "dev_closed")
+                \* attribution: a wait seen earlier names the resource; otherwise the scarcer one (ties: the window)
+                LET y == s.ls[k] x == s.ss[SessByE(s, y.ech)]
+                    winSlack == x.peerWin - ((x.initOut + x.framesOut) - x.peerNII)
+                    credSlack == y.limit - y.dcS
+                    who == IF y.blockedBy = "window" THEN "C07_Drain" ELSE IF y.blockedBy = "credit" THEN "C08_Wake"
+                           ELSE IF winSlack <= credSlack THEN "C07_Drain" ELSE "C08_Wake"
+                IN Fail(who, l, IF Stuck(s, k) = "stuck" THEN "dev_ok" ELSE "dev_closed")
   IN R([s EXCEPT !.ls = ls2],
          Chk("C12_CloseReply_Q", ~(s.oblClose /\ ~s.eeof), l, "")
        + Chk("C12_IllegalClosed_Q", ~s.illegal \/ s.ecloses > 0 \/ s.eeof \/ ~Listening(s), l, "")
